@@ -630,4 +630,27 @@ def new_ctx(repo=None):
     ctx = VCtx(repo)
     ctx.engine = Engine(ctx)
     ctx.global_qfacts.append(smt.QFact(2, lambda x, y: V.imod_facts(x, y), 'integer modulo with symbolic divisor', trigger='imod'))
+
+    def flat_hook(apps, seen, seen_pairs):
+        from . import flat
+        out = []
+        for rank in (2, 3, 4):
+            occ = list(apps.get('flat%d' % rank, {}).items())
+            for aid, app in occ:
+                if ('flat', aid) not in seen:
+                    seen[('flat', aid)] = 0
+                    out.extend(flat.flat_axioms(rank, app))
+            for aid, app in apps.get('prod%d' % rank, {}).items():
+                if ('prod', aid) not in seen:
+                    seen[('prod', aid)] = 0
+                    out.extend(flat.prod_axioms(rank, app))
+            if len(occ) <= 14:
+                import itertools
+                for (i1, a1), (i2, a2) in itertools.combinations(occ, 2):
+                    if ('flatp', i1, i2) in seen_pairs:
+                        continue
+                    seen_pairs.add(('flatp', i1, i2))
+                    out.append(flat.flat_pair_axiom(rank, a1, a2))
+        return out
+    ctx.registry.hooks = [flat_hook]
     return ctx
